@@ -253,6 +253,9 @@ c13("s2_gc_refusal", "S2", "empty store, skip_gc symbolic, empty snapshot",
     "Store::encode_state_from_snapshot refuses with Error::Gc and writes nothing", kani_args=[])
 
 STUBS += [
+    "C13/S1: <str::Chars as Iterator>::count -> byte-wise count of non-continuation bytes (std counts "
+    "word-at-a-time behind alignment arithmetic; not used by the code as it stands, kept so that a change "
+    "introducing chars().count() stays decidable)",
     "C13/S1: the Encoder is a recording implementation of the public Encoder trait (call kind + arguments); "
     "ItemSlice::encode / ItemContent::encode_slice run unmodified against it",
 ]
